@@ -379,6 +379,35 @@ func Suite(c Cfg) []Req {
 	return suite
 }
 
+// CrossSuite returns preflights from an origin that cur allows which mention the vocabulary of another
+// configuration: its method spellings exactly as supplied and its request-header names. What one configuration
+// (accepted elsewhere, or rejected here) says about a name must not leak into how cur's middleware answers.
+func CrossSuite(cur *Cfg, other Cfg) []Req {
+	ok := "https://any.example"
+	if cur != nil {
+		if allowed, _ := originPools(*cur); len(allowed) > 0 {
+			ok = allowed[0]
+		}
+	}
+	var out []Req
+	seen := map[string]bool{}
+	for _, m := range other.Methods {
+		if s := string(m); s != "" && s != "*" && !seen["m"+s] && len(out) < 16 {
+			seen["m"+s] = true
+			out = append(out, Preflight(ok, s))
+		}
+	}
+	n := 0
+	for _, h := range other.RequestHeaders {
+		if s := lower(string(h)); s != "" && s != "*" && !seen["h"+s] && n < 16 {
+			seen["h"+s] = true
+			n++
+			out = append(out, Preflight(ok, "GET", s))
+		}
+	}
+	return out
+}
+
 // everyOther picks up to n entries spread evenly over xs (deterministic).
 func everyOther(xs []string, n int) []string {
 	if len(xs) <= n {
